@@ -1172,8 +1172,6 @@ fn std_get(len: usize, sb: Bd, eb: Bd) -> Option<(usize, usize)> {
 // ---------------------------------------------------------------------------------------------
 
 struct Session<'l, T: Subject> {
-    hdr: Hdr,
-    unique: bool,
     /// what is added to the implementation's stored count around sharing operations so that
     /// the real ceiling is hit exactly when the model's small ceiling is
     ceil_off: usize,
@@ -1213,8 +1211,6 @@ impl<'l, T: Subject> Session<'l, T> {
         let queue: Vec<String> = if lean.is_some() { hdr.lines().into_iter().skip(1).collect() } else { vec![] };
         let unique = hdr.backend == "unique";
         Ok(Session {
-            hdr: hdr.clone(),
-            unique,
             ceil_off: if unique { 0 } else { (REAL_CEIL - hdr.ceil) as usize },
             pool: (0..SLOTS).map(|_| None).collect(),
             oracle: vec![None; SLOTS],
